@@ -111,6 +111,39 @@ def case_halton_fn(bases, npts):
     return Case(name, body, replay, time_budget=500)
 
 
+def case_halton_boundaries(bases):
+    """Start indices around the digit-count boundaries (powers of each base): the index is a symbolic Int constrained to this
+    finite set and concretised by forking, so the real halton() runs on plain ints - also when its arithmetic cannot be lifted."""
+    name = f"halton-boundaries-{'_'.join(map(str, bases))}"
+    pts = sorted({b**m + d for b in bases for m in range(1, 18) if b**m < S_MAX for d in (-3, -2, -1, 0) if 0 <= b**m + d < S_MAX} | {0, 1, 19, 20, 2**16 - 1, S_MAX - 3})
+
+    def body(ctx):
+        s = ctx.int("s", 0, S_MAX - 1)
+        ctx.solver.add(z3.Or(*[s.t == v for v in pts]))
+        sv = int(s)
+        out = hm.halton(3, np.array(bases), sv)
+        ok = out.shape == (3, len(bases))
+        msgs = []
+        for k in range(3):
+            for j, b in enumerate(bases):
+                exp = _ri_concrete(sv + 1 + k, b)
+                if not ok or abs(Fraction(float(out[k, j])) - exp) > Fraction(1, 10**12):
+                    msgs.append(f"index {sv + 1 + k} base {b}: {out[k, j]!r} vs {float(exp)!r}")
+        ctx.prove(z3.BoolVal(ok and not msgs), "halton_radical_inverse", f"start index {sv}: " + ("; ".join(msgs[:2]) or "radical inverses"))
+
+    def replay(cex):
+        s = int(cex.values.get("s") or 0)
+        out = hm.halton(3, np.array(bases), s)
+        for k in range(3):
+            for j, b in enumerate(bases):
+                exp = _ri_concrete(s + 1 + k, b)
+                if abs(Fraction(float(out[k, j])) - exp) > Fraction(1, 10**12):
+                    return True, f"halton(3, {bases}, n_start={s})[{k},{j}] = {out[k, j]!r}, radical inverse of {s + 1 + k} in base {b} is {float(exp)!r}"
+        return False, "ok"
+
+    return Case(name, body, replay, time_budget=300, split=3)
+
+
 def _identity_digitize(data, grid):
     return data
 
@@ -306,6 +339,8 @@ def cases(tier, seed):
     if tier == "quick":
         for bases, n in [((2,), 2), ((3,), 2), ((2, 3), 2), ((2, 3, 5), 1), ((7,), 1), ((11,), 1), ((13,), 1), ((17,), 1), ((19,), 1), ((173,), 1)]:
             cs.append(case_halton_fn(bases, n))
+        cs.append(case_halton_boundaries((2, 3)))
+        cs.append(case_halton_boundaries((5, 7, 11)))
         for dims, bt in [(1, (1, 1)), (1, (2, 1)), (2, (1, 2)), (2, (2, 2))]:
             cs.append(case_halton_sampler(dims, bt))
         for dims, bt in [(1, (2, 2)), (2, (1, 3)), (3, (2, 1))]:
@@ -316,6 +351,8 @@ def cases(tier, seed):
         for a, b in zip(PRIMES40, PRIMES40[1:]):
             cs.append(case_halton_fn((a, b), 1))
         cs.append(case_halton_fn((2, 3, 5), 2))
+        for i in range(0, 40, 4):
+            cs.append(case_halton_boundaries(tuple(PRIMES40[i : i + 4])))
         for dims in (1, 2, 3):
             for bt in [(1, 1), (2, 1), (1, 2), (2, 2), (3, 2), (1, 4)]:
                 if dims == 3 and sum(bt) > 3:
